@@ -309,6 +309,18 @@ impl<'a, 'tcx> MirVisitor<'tcx> for BodyFacts<'a, 'tcx> {
             ));
         }
         else {
+            // a use of a named constant: its initialiser is a body of its own (tables of function pointers, closures kept in a
+            // const) — record the dependency so that reachability passes through it
+            if let mir::Const::Unevaluated(uv, _) = c.const_ {
+                if uv.def.is_local() && matches!(cx.tcx.def_kind(uv.def), DefKind::Const { .. } | DefKind::AssocConst { .. }) {
+                    self.refs.push(format!(
+                        "{{\"kind\":\"const\",\"key\":{},\"path\":{},\"res\":\"direct\",\"bb\":{}}}",
+                        esc(&cx.key(uv.def)),
+                        esc(&cx.path(uv.def)),
+                        location.block.index()
+                    ));
+                }
+            }
             // integer-valued constants (also single-field integer newtypes), evaluated by rustc
             let tcx = cx.tcx;
             let env = TypingEnv::post_analysis(tcx, self.owner);
